@@ -39,6 +39,8 @@ def ev(e):
         return "HE (%s %d%%nat)" % ({"take": "ETake", "timer": "ETimer", "ctx": "ECtx", "disc": "EDisc"}[n], e[1])
     if n == "net":
         return "HE (ENet %s)" % msg(e[1], e[2], e[3], e[4])
+    if n == "chunkc":
+        return "HE (EChunkC %s)" % z(e[1])
     if n in ("eof", "pop", "lock", "deliver", "resume"):
         return "HE %s" % {"eof": "EEOF", "pop": "EPop", "lock": "ELock", "deliver": "EDeliver", "resume": "EResume"}[n]
     raise ValueError("unknown event %r" % (e,))
